@@ -796,7 +796,12 @@ def utc_time_sources(ctx, rule, prefixes, floor):
                     d.endswith('.utc_now_sec'):
                 n_utc += 1
                 continue
-            if d in LOCAL_TIME and not c.args and not c.keywords:
+            local = d in LOCAL_TIME and not c.args and not c.keywords
+            if d.endswith('fromtimestamp') and d in LOCAL_TIME:
+                # fromtimestamp(x) without a tz argument is local time
+                local = len(c.args) < 2 and not any(
+                    k.arg == 'tz' for k in c.keywords)
+            if local:
                 rule.fail(ctx.construct(f, c, extra='local time'),
                           '%s() is the local wall clock; stored timestamps '
                           'are UTC, so every comparison made with it is off '
